@@ -216,7 +216,7 @@ class ParseSim:
             rule = self.grammars[g]["long"].get("rule", v["exported"][0])
             tasks = []
             for _ in range(rng.range(1, 3)):
-                q = [{"variant": v["name"], "rule": rule, "input": self.gen_long_input(rng, g, [20000, 40000]), "ctx": [0, 0],
+                q = [{"variant": v["name"], "rule": rule, "input": self.gen_long_input(rng, g, [20000, 40000, 70000, 100000]), "ctx": [0, 0],
                       "entry": rng.choice(["parse", "noop"]), "align": rng.below(8)}]
                 prev = None
                 for _ in range(rng.range(2, 6)):
@@ -227,13 +227,45 @@ class ParseSim:
                 tasks.append(q)
             ntasks = len(tasks)
             vs = [v["name"]]
+        many = (not deep_sim) and (not aged) and rng.coin(30)
+        if many:
+            # a long-lived thread: several hundred parses of one variant on one thread (counters, generation stamps and
+            # pools that wrap or fill up only after hundreds of uses), most of them short, a long one now and then
+            g = rng.choice(sorted(n for n in gnames if not self.grammars[n]["ctx"] and not self.grammars[n].get("max_run")))
+            full = max(self.by_grammar[g], key=lambda v: v["mask"])
+            v = full if rng.coin(700) else rng.choice(self.by_grammar[g])
+            q = []
+            pool_inputs = sorted({self.gen_input(rng, g) for _ in range(60)}, key=lambda x: (len(x), x))
+            short = [x for x in pool_inputs if len(x) <= 8] or [""]
+            shortest_sentences = sorted(self.grammars[g]["sentences"], key=lambda x: (len(x), x))[1:4]
+            total = rng.range(300, 620)
+            if rng.coin(500):
+                # random mix
+                for k in range(total):
+                    inp = rng.choice(pool_inputs) if rng.coin(150) else rng.choice(short)
+                    q.append(inp)
+            else:
+                # wrap-around probe: the longest input first, then only short inputs, and around the 254th..258th parse
+                # (where 8-bit counters and stamps wrap) inputs of strictly increasing length, so that each of them reads
+                # positions that nobody has touched since the very first parse
+                longs = pool_inputs[-8:]
+                q.append(longs[-1])
+                filler = shortest_sentences if rng.coin(700) else short
+                probes = {253 + j: longs[j] for j in range(min(6, len(longs) - 1))}
+                for k in range(1, 270):
+                    q.append(probes[k] if k in probes else rng.choice(filler))
+            q = [{"variant": v["name"], "rule": v["exported"][-1] if "long" not in self.grammars[g] else self.grammars[g]["long"].get("rule", v["exported"][0]),
+                  "input": inp, "ctx": [0, 0], "entry": rng.choice(["parse", "noop"]), "align": rng.below(8)} for inp in q]
+            tasks = [q]
+            ntasks = 1
+            vs = [v["name"]]
         sim_seed = rng.next()
         plan = {
             "id": i, "sim_seed": sim_seed, "entropy": sim_seed >> 1,
-            "reuse_buffer": rng.coin(400), "aged": aged,
+            "reuse_buffer": rng.coin(400), "aged": aged, "many_parses": many,
             "policy": {"kind": "random", "switch_permille": rng.choice([2, 5, 20])} if deep_sim else self.gen_policy(rng, ntasks, est, vs),
-            "start_at": [0] * ntasks if (deep_sim or aged) else [0 if rng.coin(600) else rng.below(max(est // 2, 1)) for _ in range(ntasks)],
-            "fresh_threads": rng.coin(300),
+            "start_at": [0] * ntasks if (deep_sim or aged or many) else [0 if rng.coin(600) else rng.below(max(est // 2, 1)) for _ in range(ntasks)],
+            "fresh_threads": rng.coin(300) and not (aged or many),
             "deep": deep_sim,
             "tasks": tasks,
         }
@@ -270,7 +302,7 @@ class ParseSim:
             tasks.append(q)
         aged = "long" in self.grammars[g] and rng.coin(100)
         if aged:
-            warm = {"variant": vs[0], "rule": self.grammars[g]["long"].get("rule", self.by_name[vs[0]]["exported"][0]), "input": self.gen_long_input(rng, g, [6000, 12000, 30000]),
+            warm = {"variant": vs[0], "rule": self.grammars[g]["long"].get("rule", self.by_name[vs[0]]["exported"][0]), "input": self.gen_long_input(rng, g, [6000, 30000, 70000, 100000]),
                     "ctx": [0, 0], "entry": rng.choice(["parse", "noop"]), "align": rng.below(8)}
             tasks[0].insert(0, warm)
         sim_seed = rng.next()
@@ -460,7 +492,7 @@ def stats_init():
     return {"simulations": 0, "steps": 0, "switches": 0, "switches_inside_parse": 0, "cache_hits": 0, "leftrec_rounds": 0,
             "hook_events": 0, "rule_events": 0, "jobs": 0, "jobs_ok": 0, "jobs_err": 0, "overlap_same_variant": 0,
             "overlap_same_input": 0, "same_variant_follows_on_thread": 0, "same_input_again_on_thread": 0,
-            "fresh_thread_sims": 0, "deep_nesting_sims": 0, "aged_process_sims": 0, "buffer_reuse_sims": 0, "sims_mixing_grammars": 0, "unbalanced_trace_callbacks": 0, "failing_jobs_on_memoized_variants": 0}
+            "fresh_thread_sims": 0, "deep_nesting_sims": 0, "aged_process_sims": 0, "many_parses_sims": 0, "buffer_reuse_sims": 0, "sims_mixing_grammars": 0, "unbalanced_trace_callbacks": 0, "failing_jobs_on_memoized_variants": 0}
 
 
 def run_check(prop, tier, seed, replay_path=None):
@@ -526,6 +558,7 @@ def run_check(prop, tier, seed, replay_path=None):
             stats["fresh_thread_sims"] += 1 if plan.get("fresh_threads") else 0
             stats["deep_nesting_sims"] += 1 if plan.get("deep") else 0
             stats["aged_process_sims"] += 1 if plan.get("aged") else 0
+            stats["many_parses_sims"] += 1 if plan.get("many_parses") else 0
             stats["buffer_reuse_sims"] += 1 if plan.get("reuse_buffer") else 0
             if len({self_g for self_g in (ps.by_name[j["variant"]]["grammar"] for q in plan["tasks"] for j in q)}) > 1:
                 stats["sims_mixing_grammars"] += 1
